@@ -21,7 +21,12 @@ use crate::storage::segment::{MAX_SEGMENTS, SegmentInfo, SegmentState};
 use crate::{Result, StorageError};
 
 /// Minimum total buffer size for compaction (128 KiB).
+#[cfg(not(kani))]
 const MIN_BUFFER_SIZE: usize = 128 * 1024;
+/// Verification scale model (only under the Kani compiler): a 2-byte buffer so that spans larger than
+/// the I/O buffer exist in a file of a few bytes. The code is uniform in this constant.
+#[cfg(kani)]
+const MIN_BUFFER_SIZE: usize = 2;
 
 /// Maximum number of I/O buffers.
 const MAX_BUFFERS: usize = 16;
